@@ -154,6 +154,77 @@ func C14(run *mon.Run) {
 		}(si, sq)
 	}
 	wg.Wait()
+	// ---- large single reads (page, 32 KiB, 64 KiB, 1 MiB boundaries): keystream, the byte counter that
+	// Store() reports after each read, and the continuation of a generator restored from that state
+	{
+		big := []int{4095, 4096, 4097, 8191, 8192, 16384, 16385, 32767, 32768, 32769, 40000, 65535, 65536, 65537, 100000, 131072, 131073, 262144 + 5, 524288, 1 << 20, 1<<20 + 1}
+		if !run.Quick() {
+			big = append(big, 1<<21+3, 1<<22, 1<<23+64, 1<<24, 1<<24+1, 3<<23+17)
+		}
+		var bseqs [][]int
+		for i, n := range big {
+			bseqs = append(bseqs, []int{n}, []int{[]int{1, 63, 64, 65, 129}[i%5], n, 7}, []int{n, big[(i*7+3)%len(big)]})
+		}
+		for si, sq := range bseqs {
+			wg.Add(1)
+			sem <- struct{}{}
+			go func(si int, sq []int) {
+				defer wg.Done()
+				defer func() { <-sem }()
+				defer run.Protect("c14 worker")
+				r := run.Rand(fmt.Sprintf("big-%d", si))
+				seed := mon.RandBytes(r, 32)
+				cust := mon.RandBytes(r, si%13)
+				rep := map[string]any{"seed": mon.Hex(seed), "customizer": mon.Hex(cust), "reads": sq}
+				g, err := random.NewChacha20PRG(seed, cust)
+				if err != nil {
+					run.Violate("C14:constructor-refuses-valid", err.Error(), rep)
+					return
+				}
+				run.Guard("large-reads", rep, func() {
+					off := uint64(0)
+					for ri, n := range sq {
+						buf := withSpare(bytes.Repeat([]byte{0x3C}, n))
+						g.Read(buf)
+						want := ref.ChaCha20Stream(seed, padNonce(cust), off, n)
+						run.Eval(1)
+						if !bytes.Equal(buf, want) {
+							d := 0
+							for d < n && buf[d] == want[d] {
+								d++
+							}
+							run.Violate("C14:keystream:large-read", fmt.Sprintf("Read #%d of %d bytes at offset %d differs from the RFC 8439 keystream from byte %d on", ri, n, off, d), rep)
+							return
+						}
+						if !spareIntact(buf, want) {
+							run.Violate("C14:read-writes-past-buffer", fmt.Sprintf("Read #%d of %d bytes wrote behind the end of the destination slice", ri, n), rep)
+							return
+						}
+						off += uint64(n)
+						st := g.Store()
+						if len(st) != 52 || binary.LittleEndian.Uint64(st[44:]) != off {
+							run.Violate("C14:store-counter-after-large-read", fmt.Sprintf("after reads %v (%d bytes in all) Store() reports %x as its byte counter", sq[:ri+1], off, st[min(44, len(st)):]), rep)
+							return
+						}
+						g2, err := random.RestoreChacha20PRG(st)
+						if err != nil {
+							run.Violate("C14:restore-refuses-valid-state", err.Error(), rep)
+							return
+						}
+						b := make([]byte, 100)
+						g2.Read(b)
+						if !bytes.Equal(b, ref.ChaCha20Stream(seed, padNonce(cust), off, 100)) {
+							run.Violate("C14:restore-continuation:after-large-read", fmt.Sprintf("a generator restored after reads %v does not continue at offset %d", sq[:ri+1], off), rep)
+							return
+						}
+					}
+				})
+				run.Shape(fmt.Sprintf("large|%v", sq))
+				run.Count("large-read-sequences", 1)
+			}(si, sq)
+		}
+		wg.Wait()
+	}
 	// ---- restore at every offset
 	maxOff := run.Pick(320, 4160)
 	for off := 0; off <= maxOff; off++ {
